@@ -26,6 +26,14 @@ def _typed(v, as_int):
     """A fixed parameter may be written as a Python int / an integer array when its value is integral."""
     if not as_int:
         return float(v) if not isinstance(v, list) else np.asarray(v, dtype=float)
+    if as_int == "narrow":
+        # the narrowest signed NumPy integer type that holds the values (a baseline read off an int8 / int16 recording): their
+        # squares do not fit that type (D33)
+        a = np.asarray(v, dtype=float)
+        if np.all(a == np.round(a)):
+            dt = np.int8 if np.abs(a).max() <= 127 else np.int16
+            return a.astype(dt) if isinstance(v, list) else dt(int(v))
+        return a if isinstance(v, list) else float(v)
     if isinstance(v, list):
         a = np.asarray(v, dtype=float)
         return a.astype(np.int64) if np.all(a == np.round(a)) else a
@@ -36,11 +44,11 @@ def build_param(cost, param):
     if param is None:
         return None
     if param.get("int_typed"):
-        m = _typed(param["mean"], True)
+        m = _typed(param["mean"], param["int_typed"])
         if cost == "L2Cost":
             return m
         second = param["var"] if cost == "GaussianVarCost" else param["cov"]
-        return (m, _typed(second, True))
+        return (m, _typed(second, param["int_typed"] if cost == "GaussianVarCost" else True))
     if cost == "L2Cost":
         m = param["mean"]
         return float(m) if not isinstance(m, list) else np.asarray(m, dtype=float)
@@ -70,10 +78,12 @@ def fixed_param(draw, cost, p):
 
     # moderate dynamic range (section 3.1): 0 or 1e-3 <= |mean| <= 10 - never the subnormal-squared region
     mean_elem = st.one_of(st.integers(-5, 5).map(float), D.generic_float(10.0, 1e-3))
-    param = {"mean": scalar_or_vec(mean_elem), "int_typed": draw(st.sampled_from([False, False, True]))}
+    param = {"mean": scalar_or_vec(mean_elem), "int_typed": draw(st.sampled_from([False, False, True, "narrow"]))}
     if param["int_typed"]:
         # integral values written as Python ints / integer arrays: mean 1, variance 2, covariance [[2,1],[1,3]]
         param["mean"] = scalar_or_vec(st.integers(-5, 5).map(float))
+    if param["int_typed"] == "narrow":
+        param["mean"] = scalar_or_vec(st.sampled_from([12.0, -15.0, 100.0, 300.0, -200.0, 3.0]))
     if cost == "GaussianVarCost":
         param["var"] = scalar_or_vec(st.sampled_from([2.0, 1.0, 3.0, 4.0, 100.0])) if param["int_typed"] else \
             scalar_or_vec(st.one_of(st.sampled_from([1.0, 0.5, 0.01, 4.0, 100.0, 1e-6, 1e-9, 1e4]),
